@@ -134,6 +134,9 @@ func c19(w *core.World, r *core.Report) {
 	r.Rule("CLOSE-SINGLE", 3, "every close() in that scope closes a channel that has exactly one closing site, and the closing function is not started more than once per channel (the closure is not spawned on a CFG cycle of the function that made the channel). Decides: no double close, no send on a channel closed by another sender.")
 	r.Rule("WG-PAIR", 2, "every goroutine started in a function of that scope that waits on a sync.WaitGroup defers wg.Done() as its first deferred action path-independently (Done on every exit), and an Add precedes the go statement.")
 
+	r.Rule("LOCK-RELEASE", 1, "every Lock/RLock taken in a function of that scope is released on every path to the function's exits (deferred unlock, or an unlock call on the path): an error return that keeps a mutex blocks the other streaming goroutines forever.")
+	r.Rule("CONSUMER-DRAINS", 2, "the goroutine in Server.GetData that forwards responses to the gRPC stream stops reading only when the stream's context is done, the channel was closed, or a send failed with one of the frozen dead-stream texts (strings.Contains on the error): any other early return leaves Datastore.Get blocked on its send while it holds Server.md.")
+	nLocks := 0
 	closers := map[ssa.Value][]ssa.Instruction{} // made channel -> close sites
 	for _, f := range w.RepoFns {
 		if !inScope(f) {
@@ -186,6 +189,14 @@ func c19(w *core.World, r *core.Report) {
 				}
 			}
 		}
+		for _, c := range core.Calls(f) {
+			if k, _, _ := core.LockOp(c); k == "lock" || k == "rlock" {
+				nLocks++
+			}
+		}
+		for _, lk := range core.LockLeaks(f) {
+			r.Viol("LOCK-RELEASE", core.Site(f, "lock %s", lk.Class), w.InstrPos(lk.Lock), fmt.Sprintf("a path reaches a function exit with the lock still held (blocks %v)", lk.Trace))
+		}
 		// goroutines started here
 		for _, c := range core.Calls(f) {
 			g, isGo := c.(*ssa.Go)
@@ -225,6 +236,78 @@ func c19(w *core.World, r *core.Report) {
 				}
 			}
 			r.Check(added, "WG-PAIR", site+" Add before go", w.InstrPos(g), "wg.Add must precede the go statement")
+		}
+	}
+	r.OK("LOCK-RELEASE", "scope", "", fmt.Sprintf("%d lock acquisitions in scope examined", nLocks))
+	if gd := w.Func("pkg/server", "Server", "GetData"); gd != nil {
+		for _, a := range gd.AnonFuncs {
+			// the forwarder: has a select receiving from a channel of GetDataResponse
+			var sel *ssa.Select
+			for _, b := range a.Blocks {
+				for _, in := range b.Instrs {
+					if x, ok := in.(*ssa.Select); ok {
+						sel = x
+					}
+				}
+			}
+			if sel == nil {
+				continue
+			}
+			accept := func(cond ssa.Value, condTrue bool) bool {
+				v, neg := core.StripNot(cond)
+				val := condTrue
+				if neg {
+					val = !val
+				}
+				// select case index of the ctx.Done state
+				if bo, isB := v.(*ssa.BinOp); isB && val {
+					if ex, isEx := bo.X.(*ssa.Extract); isEx && ex.Tuple == ssa.Value(sel) && ex.Index == 0 {
+						if n, isC := core.ConstInt(bo.Y); isC && int(n) < len(sel.States) && isCtxDoneChan(sel.States[n].Chan) {
+							return true
+						}
+					}
+				}
+				// channel closed: recvOk false
+				if ex, isEx := v.(*ssa.Extract); isEx && ex.Tuple == ssa.Value(sel) && ex.Index == 1 && !val {
+					return true
+				}
+				// frozen dead-stream heuristic
+				for _, oc := range core.OriginCalls(v) {
+					if core.CalleeIs(oc, "strings.Contains") && val {
+						return true
+					}
+				}
+				return false
+			}
+			for _, ret := range core.Returns(a) {
+				ok := false
+				for _, g := range core.GuardsOf(ret) {
+					if accept(g.If.Cond, g.CondTrue()) {
+						ok = true
+					}
+				}
+				if !ok {
+					// a disjunction (a || b): every edge into the return block is an accepted outcome
+					blk := ret.Block()
+					all := len(blk.Preds) > 0
+					for _, p := range blk.Preds {
+						iff, isIf := p.Instrs[len(p.Instrs)-1].(*ssa.If)
+						if !isIf {
+							all = false
+							continue
+						}
+						idx := 0
+						if p.Succs[1] == blk {
+							idx = 1
+						}
+						if !accept(iff.Cond, idx == 0) {
+							all = false
+						}
+					}
+					ok = all
+				}
+				r.Check(ok, "CONSUMER-DRAINS", core.Site(a, "return"), w.InstrPos(ret), "the forwarder may stop only on context done, channel closed or a dead-stream error text")
+			}
 		}
 	}
 	for ch, sites := range closers {
